@@ -42,9 +42,10 @@ pub fn parse(c: &[u64]) -> Option<(usize, usize, Vec<[u64; 4]>)> {
         let ok = match o[0] {
             1 => small(o[1]) && small(o[2]) && (o[3] == 0 || small(o[3] - 1)),
             2 => small(o[1]) && small(o[2]) && small(o[3]),
-            3 => small(o[1]) && est.insert(o[1]),
+            3 => small(o[1]) && o[2] < 256 && est.insert(o[1]),
             4 => small(o[1]),
             5 => small(o[1]) && o[2] < 1000,
+            6 => small(o[1]),
             _ => false,
         };
         if !ok {
@@ -62,7 +63,7 @@ struct Pending {
 struct Unit {
     names: Vec<ProtocolName>,
     protocols: HashMap<ProtocolName, ProtocolContext>,
-    rxs: Vec<mpsc::Receiver<InnerTransportEvent>>,
+    rxs: Vec<Option<mpsc::Receiver<InnerTransportEvent>>>,
     cap: usize,
     mgr_tx: mpsc::Sender<TransportManagerEvent>,
     mgr_rx: mpsc::Receiver<TransportManagerEvent>,
@@ -73,6 +74,8 @@ struct Unit {
     pending: BTreeMap<u64, Pending>,
     /// everything the protocols received is kept: the events hold the connection handles / permits
     kept: Vec<InnerTransportEvent>,
+    /// connections given up after a failed "established" report (Transport::accept drops the set)
+    gone: HashSet<u64>,
 }
 
 impl Unit {
@@ -93,7 +96,7 @@ impl Unit {
                 },
             );
             names.push(name);
-            rxs.push(rx);
+            rxs.push(Some(rx));
         }
         let (mgr_tx, mgr_rx) = mpsc::channel(4096);
         Unit {
@@ -107,6 +110,7 @@ impl Unit {
             sets: BTreeMap::new(),
             pending: BTreeMap::new(),
             kept: Vec::new(),
+            gone: HashSet::new(),
         }
     }
 
@@ -156,11 +160,31 @@ async fn settle() {
     }
 }
 
-pub fn run(rt: &tokio::runtime::Runtime, n: usize, cap: usize, ops: &[[u64; 4]]) -> Vec<u64> {
+/// Runs the case; returns the case as run (the "polled before the first dead protocol" mask of
+/// report_connection_established is filled in from this run's protocol table order) and the trace.
+pub fn run(rt: &tokio::runtime::Runtime, n: usize, cap: usize, ops: &[[u64; 4]]) -> (Vec<u64>, Vec<u64>) {
     rt.block_on(async move {
         let mut u = Unit::new(n, cap);
         let mut tr = vec![2u64];
+        let mut case = vec![2u64, n as u64, cap as u64, ops.len() as u64];
         for o in ops {
+            let mut o = *o;
+            if o[0] == 3 {
+                // the sends are polled in the iteration order of the protocol table
+                let mut mask = 0u64;
+                if u.rxs.iter().any(|r| r.is_none()) {
+                    for name in u.protocols.keys() {
+                        let i = u.names.iter().position(|x| x == name).unwrap();
+                        if u.rxs[i].is_none() {
+                            break;
+                        }
+                        mask |= 1 << i;
+                    }
+                }
+                o[2] = mask;
+            }
+            case.extend(o);
+            let o = &o;
             let mut code = 0u64;
             let mut got: Vec<[u64; 3]> = Vec::new();
             let before: Vec<u64> = u.pending.keys().copied().collect();
@@ -168,7 +192,7 @@ pub fn run(rt: &tokio::runtime::Runtime, n: usize, cap: usize, ops: &[[u64; 4]])
             match o[0] {
                 1 | 2 | 3 | 4 => {
                     let c = o[1];
-                    if u.pending.contains_key(&c) {
+                    if u.pending.contains_key(&c) || u.gone.contains(&c) {
                         code = 2;
                     } else if (o[0] == 1 || o[0] == 2) && o[2] as usize >= n {
                         // the real functions answer an unknown protocol name with an error
@@ -245,7 +269,7 @@ pub fn run(rt: &tokio::runtime::Runtime, n: usize, cap: usize, ops: &[[u64; 4]])
                     }
                 }
                 5 => {
-                    if let Some(rx) = u.rxs.get_mut(o[1] as usize) {
+                    if let Some(Some(rx)) = u.rxs.get_mut(o[1] as usize) {
                         for _ in 0..o[2] {
                             match rx.try_recv() {
                                 Ok(ev) => {
@@ -255,6 +279,14 @@ pub fn run(rt: &tokio::runtime::Runtime, n: usize, cap: usize, ops: &[[u64; 4]])
                                 Err(_) => break,
                             }
                         }
+                    }
+                }
+                6 => {
+                    let p = o[1] as usize;
+                    if p < n && u.rxs[p].is_some() && u.pending.is_empty() {
+                        u.rxs[p] = None; // the protocol drops its receiver: queued events are discarded
+                    } else {
+                        code = 2;
                     }
                 }
                 _ => {}
@@ -282,7 +314,13 @@ pub fn run(rt: &tokio::runtime::Runtime, n: usize, cap: usize, ops: &[[u64; 4]])
                             )
                         }
                     };
-                    u.sets.insert(c, set);
+                    if failed && o[0] == 3 && started == Some(c) {
+                        // what Transport::accept does on this error: give the connection up
+                        u.gone.insert(c);
+                        drop(set);
+                    } else {
+                        u.sets.insert(c, set);
+                    }
                     if started == Some(c) {
                         code = if failed { 3 } else { 0 };
                     } else if before.contains(&c) {
@@ -305,7 +343,7 @@ pub fn run(rt: &tokio::runtime::Runtime, n: usize, cap: usize, ops: &[[u64; 4]])
             u.dump(&mut tr);
         }
         let _ = u.cap;
-        tr
+        (case, tr)
     })
 }
 
@@ -319,7 +357,12 @@ pub fn gen(rng: &mut Rng, thorough: bool) -> Vec<u64> {
     let mut ops: Vec<[u64; 4]> = Vec::new();
     let mut est: HashSet<u64> = HashSet::new();
     let mut next_id = 0u64;
-    for _ in 0..nops {
+    let kill_at = if rng.chance(20) { rng.below(nops) } else { u64::MAX };
+    for k in 0..nops {
+        if k == kill_at {
+            ops.push([6, rng.below(n), 0, 0]);
+            continue;
+        }
         let c = rng.range(1, nconn);
         let p = if rng.chance(3) { n } else { rng.below(n) };
         match rng.below(100) {
